@@ -15,6 +15,7 @@ mod ae;
 mod core;
 mod data_struct;
 mod encrypted_header;
+mod ser;
 
 pub mod api;
 pub mod traits;
